@@ -17,7 +17,7 @@ theorem live_of_rel {b : Option Addr} {s s' : St} {p : ObjId} (hr : Rel b s s') 
 theorem invL_putChars (c : Cfg) (h12 : c.fix12 = true) (s : St) (p : ObjId) (x : Cid) (ev : Option Bool) (val : Option Val)
     (h : InvL c s) (hl : Live s p) : InvL c (putChars c s p x ev val) := by
   have h1 := invL_putSub c s p x ev h hl.a hl.u hl.lt hl.nl
-  have l1 := live_of_rel (rel_putSub s p x ev) (invA_putSub s p x ev hl.a) hl
+  have l1 := live_of_rel (rel_putSub c s p x ev) (invA_putSub c s p x ev hl.a) hl
   simp only [putChars]
   split
   · exact h1
